@@ -61,7 +61,7 @@ def run(ctx):
         if ctx.only and not ctx.only.search(n):
             continue
         if ctx.tier == "quick" and "q" in tiers:
-            ctx.add(n, kq, timeout=900, cover_required=cov_req)
+            ctx.add(n, kq, timeout=1800, cover_required=cov_req)
         elif ctx.tier == "thorough":
             ctx.add(n, kt, timeout=1200, min_K=kq or 30, chunk=2, cover_required=cov_req)
     ctx.run()
